@@ -250,6 +250,7 @@ Lemma code_checks_accept e id : In id (ids (codes e)) -> 0 < id ->
     (* instantiate: register_contract's check passes; the outcome depends on the address only *)
     (forall s creator admin label salt,
        register_contract e s id creator admin label salt =
+       if negb (salt_ok salt) then Err else
        match new_address e s id creator salt with
        | None => Panic
        | Some a => match lookup a (reg s) with
@@ -347,16 +348,41 @@ Lemma register_records e s code_id creator admin label salt a s1 :
   (forall x, x <> a -> lookup x (reg s1) = lookup x (reg s)) /\
   length (reg s1) = S (length (reg s)) /\
   new_address e s code_id creator salt = Some a /\ In code_id (ids (codes e)) /\
-  bank s1 = bank s /\ cstore s1 = cstore s.
+  bank s1 = bank s /\ cstore s1 = cstore s /\ salt_ok salt = true.
 Proof.
   intros H. pose proof (register_fresh _ _ _ _ _ _ _ _ _ H) as [Hn [Hc [Hr [Hb Hcs]]]].
   split; [exact Hn|]. rewrite Hr. split; [apply lookup_update_same|].
   split; [intros x Hx; apply lookup_update_other; exact Hx|].
-  split; [apply length_update_fresh; exact Hn|]. split.
-  - unfold register_contract in H. destruct (find_code code_id (codes e)); [|discriminate].
+  split; [apply length_update_fresh; exact Hn|].
+  assert (Hs : salt_ok salt = true /\ new_address e s code_id creator salt = Some a).
+  { unfold register_contract in H. destruct (find_code code_id (codes e)); [|discriminate].
+    destruct (salt_ok salt); cbn [negb] in H; [|discriminate].
     destruct (new_address e s code_id creator salt) as [a0|]; [|discriminate].
-    destruct (lookup a0 (reg s)); [discriminate|]. injection H as <- _. reflexivity.
-  - split; [|auto]. destruct (find_code code_id (codes e)) eqn:E; [|congruence]. eapply find_in; eauto.
+    destruct (lookup a0 (reg s)); [discriminate|]. injection H as <- _. auto. }
+  destruct Hs as [Hs Hna]. split; [exact Hna|].
+  split; [destruct (find_code code_id (codes e)) eqn:E; [eapply find_in; eauto|congruence]|]. auto.
+Qed.
+
+(* an Instantiate2 whose salt is empty or longer than 64 bytes is refused, whatever the code, creator, label,
+   admin, funds, program and state: before anything is written, before funds move, before any code runs *)
+Lemma bad_salt_rejected e sender code_id p funds label admin salt s :
+  salt_ok (Some salt) = false ->
+  (forall creator, register_contract e s code_id creator admin label (Some salt) = Err) /\
+  run_msg e sender (MInst code_id p funds label admin (Some salt)) s = ([], Err).
+Proof.
+  intros Hs.
+  assert (Hr : forall creator, register_contract e s code_id creator admin label (Some salt) = Err).
+  { intros creator. unfold register_contract. destruct (find_code code_id (codes e)); [|reflexivity]. rewrite Hs. reflexivity. }
+  split; [exact Hr|]. cbn [run_msg]. destruct label as [|l0 lr]; [reflexivity|].
+  unfold register_contract. destruct (find_code code_id (codes e)); [|reflexivity]. rewrite Hs. reflexivity.
+Qed.
+
+Lemma bad_salt_rejected_top e sender code_id p funds label admin salt s :
+  salt_ok (Some salt) = false ->
+  run_top e (TExec sender (MInst code_id p funds label admin (Some salt))) s = ([], Err, s).
+Proof.
+  intros Hs. cbn [run_top run_msgs].
+  rewrite (proj2 (bad_salt_rejected e sender code_id p funds label admin salt s Hs)). reflexivity.
 Qed.
 
 (* the classic address is computed from the number of contracts in the CURRENT state and from nothing else
@@ -630,11 +656,11 @@ Lemma salted_repeat_rejected e sender code_id p funds label admin salt s r s' :
 Proof.
   intros H e' s'' code_id' co co' p' funds' label' admin' Hext Hbook Hco Hco' Hck.
   apply inst_ok_spec in H. destruct H as [_ [a [s1 [Hr [_ [[cd' [Hl _]] _]]]]]].
-  apply register_records in Hr. destruct Hr as [_ [_ [_ [_ [Hna _]]]]].
+  apply register_records in Hr. destruct Hr as [_ [_ [_ [_ [Hna [_ [_ [_ Hsok]]]]]]]].
   rewrite (salted_address_is e s code_id sender salt co Hco) in Hna.
   destruct (Hext _ _ Hl) as [cd'' [Hl'' _]].
   cbn [run_msg]. destruct label' as [|l0 lr]; [reflexivity|].
-  unfold register_contract. rewrite Hco'. rewrite (salted_address_is e' s'' code_id' sender salt co' Hco').
+  unfold register_contract. rewrite Hco', Hsok. cbn [negb]. rewrite (salted_address_is e' s'' code_id' sender salt co' Hco').
   rewrite Hck, Hbook, Hna, Hl''. reflexivity.
 Qed.
 
